@@ -224,7 +224,11 @@ def sparse_family(c, skip):
                                                                          ("_bar", (1, 0, 0, 1, 0, 0))]},
         }, "order": [".notdef", "A", "Abar", "_bar"]}
     reg = master(96, 608, 48)
-    reg["layers"] = {"medium": {"glyphs": {"_bar": {"width": 656, "contours": [B.box(0, 304, 656, 304 + 160)]}}}}
+    if c.get("sparse_glyph", "_bar") == "_bar":
+        reg["layers"] = {"medium": {"glyphs": {"_bar": {"width": 656, "contours": [B.box(0, 304, 656, 304 + 160)]}}}}
+    else:
+        # the sparse layer holds 'A' only: this source does NOT contain the skipped glyph
+        reg["layers"] = {"medium": {"glyphs": {"A": {"width": 656, "contours": [B.box(48, 0, 48 + 176, 704)]}}}}
     two = c["axes"] == 2
     axes = [{"name": "Weight", "tag": "wght", "min": 400, "default": 400, "max": 700}]
     if two:
@@ -244,7 +248,7 @@ def sparse_family(c, skip):
     if two:
         sources.append({"spec": master(80, 448, 48), "location": loc(wd=75), "name": "Condensed"})
     sparse = {"spec": reg, "share": "reg", "layerName": "medium", "location": loc(w=550), "name": "Medium"}
-    sources.insert(1 if c["sparse_pos"] == "second" else len(sources), sparse)
+    sources.insert({"first": 0, "second": 1}.get(c["sparse_pos"], len(sources)), sparse)
     lib = {"public.skipExportGlyphs": list(skip)} if skip else {}
     return B.build_designspace(axes, sources, lib=lib)
 
@@ -267,7 +271,8 @@ def run_sparse(c):
     ref, got = build(()), build(("_bar",))
     viols = []
     feat = {"flavour": "interp-ttf+varLib", "seam": "dslib", "family": "sparse-skipped-component",
-            "locations": c["locations"], "axes": c["axes"]}
+            "locations": c["locations"], "axes": c["axes"], "sparse_holds": c.get("sparse_glyph", "_bar"),
+            "sparse_pos": c["sparse_pos"]}
     if "_bar" in got.getGlyphOrder() or [g for g in ref.getGlyphOrder() if g != "_bar"] != got.getGlyphOrder():
         viols.append(violation("glyph-order", feat, observed=got.getGlyphOrder()))
     locs = [{"wght": 400}, {"wght": 550}, {"wght": 625}, {"wght": 700}]
@@ -442,6 +447,10 @@ class C13(Property):
             for locations in ("full", "partial"):
                 for pos in ("second", "last"):
                     out.append([{"family": "sparse", "axes": axes, "locations": locations, "sparse_pos": pos}])
+                for pos in ("first", "second", "last"):
+                    out.append([{"family": "sparse", "axes": axes, "locations": locations, "sparse_pos": pos,
+                                 "sparse_glyph": "A"}])
+                out.append([{"family": "sparse", "axes": axes, "locations": locations, "sparse_pos": "first"}])
         for fn in ("ufos", "ds-ttf", "ds-otf"):
             for n, subsets in ((2, ([0], [1], [0, 1])), (3, ([0], [1], [2], [0, 2], [1, 2]))):
                 for comp_in in subsets:
